@@ -387,6 +387,7 @@ _NEUTRAL_BASES = {
     "neutral-r13": ["C05", "C14", "C20"],
     "neutral-r14": ["C03", "C08", "C11", "C14", "C15"],
     "neutral-r16": ["C05", "C06", "C08", "C15", "C16", "C18", "C19", "C20"],
+    "neutral-r15": ["C01", "C02", "C03", "C04", "C05", "C06", "C09", "C10", "C11", "C12", "C16"],
 }
 for _b, _ps in _NEUTRAL_BASES.items():
     for _p, _m in refactor(_b, _ps).items():
@@ -442,6 +443,17 @@ _CROSS3 = {
                                   [(SCHWAB, "    RowOutcome::Emit(CgtTransaction::Sell {\n        date: common.date,\n        symbol: common.symbol,\n        quantity,\n        price,",
                                     "    RowOutcome::Emit(CgtTransaction::Sell {\n        date: common.date,\n        symbol: common.symbol,\n        quantity,\n        price: quantity,")], ["R2:Sell:price"]))],
 }
+_CROSS4 = {
+    "C01": [on("neutral-r15", mut("r15+take_while-29", "pipeline window stops one day early",
+                                  [(BNB, ".take_while(|(_, _, days_diff)| *days_diff <= BNB_WINDOW_DAYS)", ".take_while(|(_, _, days_diff)| *days_diff < BNB_WINDOW_DAYS)")], ["R3:window:interval"]))],
+    "C09": [on("neutral-r15", mut("r15+no-ticker-filter", "pipeline loses its ticker filter",
+                                  [(BNB, "        .filter(|(_, tx)| tx.ticker == sell_tx.ticker)\n", "")], ["R2:bnb:ticker-guard"]))],
+    "C02": [on("neutral-r15", mut("r15+claim-overwritten", "helper overwrites earlier claims on the acquisition",
+                                  [(BNB, "*self.future_consumption.entry(idx).or_insert(Decimal::ZERO) += matched_qty_at_buy_time;",
+                                    "self.future_consumption.insert(idx, matched_qty_at_buy_time);")], ["R3:"]))],
+    "C11": [on("neutral-r15", mut("r15+adjust-sold-lots", "apportioning pipeline also takes lots with nothing held",
+                                  [(LED, ".filter(|(held, _)| *held > Decimal::ZERO)", ".filter(|(held, _)| *held >= Decimal::ZERO)")], ["R2:"]))],
+}
 _CROSS2 = {
     "C05": [on("neutral-r9", mut("r9+holding-strict", "holding helper refuses an exactly covered sale",
                                  [(M, "        if sell_amount <= total_held {", "        if sell_amount < total_held {")], ["R1:guard:shape"]))],
@@ -464,5 +476,5 @@ _CROSS2 = {
     "C11": [on("neutral-r14", mut("r14+closure-no-apportion", "closure adds the whole adjustment to every lot",
                                   [(LED, "                    lot.cost_offset += adjustment * (held / total_held);", "                    lot.cost_offset += adjustment;")], ["R4:"]))],
 }
-for _p, _ms in list(_CROSS.items()) + list(_CROSS2.items()) + list(_CROSS3.items()):
+for _p, _ms in list(_CROSS.items()) + list(_CROSS2.items()) + list(_CROSS3.items()) + list(_CROSS4.items()):
     MUTANTS.setdefault(_p, []).extend(_ms)
